@@ -5,7 +5,7 @@ From Snax Require Import Base.Prelude Model.C20Phs Proofs.C20PhsProofs Proofs.C2
 
 Theorem bodies_history_correct opsem bs gs G :
   Forall2 (fun b g => encode b = Some g) bs gs ->
-  (forall b, In b bs -> body_ok b = true /\ plain_body b = true) ->
+  (forall b, In b bs -> body_ok b = true) ->
   (forall g, In g gs -> pdata g = pdata G) ->
   merge_all gs = Some G ->
   forall b g, In (b, g) (combine bs gs) ->
@@ -24,10 +24,10 @@ Proof.
   destruct (Hc b g Hin) as (Henc & Hbin & Hgin).
   destruct (history_correct opsem gs G Hm) with (g := g) as (sw & Hd & Ht & Hev); [|exact Hgin|].
   - intros g' Hg'. destruct (Hex g' Hg') as [b' Hb'g']. destruct (Hc _ _ Hb'g') as (He' & Hb' & _).
-    destruct (encode_ok b' g' He') as (H1 & H2 & H3 & H4). destruct (Hb b' Hb') as [_ Hp].
+    destruct (encode_ok b' g' He') as (H1 & H2 & H3).
     split; [|split; [exact H3|apply Hpd; exact Hg']].
-    unfold kernel_ok. rewrite H1, H2, (H4 Hp). reflexivity.
+    unfold kernel_ok. rewrite H1, H2. reflexivity.
   - exists sw. split; [exact Hd|]. split; [exact Ht|].
     intros ins v Hlen Hv. apply (Hev (used_inputs b ins) v []).
-    destruct (Hb b Hbin) as [Hok _]. apply (encode_sem opsem b g [] ins v Hok Henc Hlen Hv).
+    pose proof (Hb b Hbin) as Hok. apply (encode_sem opsem b g [] ins v Hok Henc Hlen Hv).
 Qed.
